@@ -93,6 +93,25 @@ def streams(rng, tier):
         for r in (res - 1, res, res + 1, res + 2, 16, -1):
             ops2.append(f"uncompactsize {len(t)} {' '.join(gen.hx(c) for c in t)} {r}")
             ops2.append(f"uncompact {len(t)} {' '.join(gen.hx(c) for c in t)} {r} {rng.randrange(0, 60)}")
+        # mixed-resolution compacted sets in every kind of order (the per-cell checks of uncompactCells must not depend
+        # on which cell comes first): coarse cells first, fine cells first, shuffled; targets below, between and above
+        if res >= 2:
+            coarse = []
+            for c in s[:6]:
+                for up in (1, 2):
+                    pc = gen.parent(c, res - up)
+                    if pc not in coarse and not any(gen.parent(x, res - up) == pc for x in s[6:12]):
+                        coarse.append(pc)
+            fine = [c for c in s[6:12] if not any(gen.parent(c, (a >> 52) & 15) == a for a in coarse)]
+            if coarse and fine:
+                for order in ("coarse-first", "fine-first", "shuffled"):
+                    t = coarse + fine if order == "coarse-first" else fine + coarse
+                    if order == "shuffled":
+                        t = list(t); rng.shuffle(t)
+                    for r in (res - 2, res - 1, res, res + 1):
+                        if 0 <= r <= 15:
+                            ops2.append(f"uncompactsize {len(t)} {' '.join(gen.hx(c) for c in t)} {r}")
+                            ops2.append(f"uncompact {len(t)} {' '.join(gen.hx(c) for c in t)} {r} 400")
     ops2.append("compact 0")
     return [("compact", ops), ("compact-errors-uncompact", ops2), ("compact-vs-set-specification", ops3)]
 
@@ -154,6 +173,16 @@ def evaluate(ctx, rng, tier, focus, budget, broken):
             ops2.append(f"uncompact {len(comp)} {l} {res} {len(S) - 1}"); meta.append(("bounds", None, i))
         if res > 0 and any(((c >> 52) & 15) == res for c in comp):
             ops2.append(f"uncompact {len(comp)} {l} {res - 1} {len(S)}"); meta.append(("mismatch", None, i))
+        # the same rejection must not depend on where the too-fine cell stands: coarsest first, and every target between
+        # the coarsest and the finest resolution present
+        rs = sorted({(c >> 52) & 15 for c in comp})
+        if len(rs) >= 2 and len(comp) <= 400:
+            asc = sorted(comp, key=lambda c: ((c >> 52) & 15, c))
+            la = " ".join(gen.hx(c) for c in asc)
+            for r in sorted({rs[0], rs[-1] - 1, (rs[0] + rs[-1]) // 2}):
+                if rs[0] <= r < rs[-1]:
+                    ops2.append(f"uncompact {len(asc)} {la} {r} {len(S)}"); meta.append(("mismatch", None, i))
+                    ops2.append(f"uncompactsize {len(asc)} {la} {r}"); meta.append(("mismatch-size", None, i))
         if len(viol_) >= 20:
             break
     out2 = ctx.c(ops2, tag="eval2")
@@ -168,6 +197,8 @@ def evaluate(ctx, rng, tier, focus, budget, broken):
             viol_.append(viol("uncompactCells with capacity |S|-1 must give E_MEMORY_BOUNDS", o, "err 14", a[:100]))
         elif kind == "mismatch" and a != "err 12":
             viol_.append(viol("uncompactCells to a coarser resolution must give E_RES_MISMATCH", o, "err 12", a[:100]))
+        elif kind == "mismatch-size" and a != "err 12":
+            viol_.append(viol("uncompactCellsSize to a coarser resolution must give E_RES_MISMATCH", o, "err 12", a[:100]))
     return {"evaluations": len(ops) + len(ops2), "violations": viol_[:20], "distinct": [o[:300] for o in ops],
             "coverage": {"sets": len(sets), "orders_each": 3, "largest_set": max(len(s) for s in sets),
                          "resolutions": sorted({(s[0] >> 52) & 15 for s in sets if s})},
